@@ -28,6 +28,7 @@ SEQ = {
 }
 
 
+RECORDED_FOR = {"C01", "C02", "C03", "C07", "C09", "C10", "C13", "C15"}
 EXTRA = {"C19", "C12", "C16", "C17", "C20", "C11", "C14"}
 
 
@@ -38,6 +39,9 @@ def seq_property(prop, tier):
     for name in names:
         for cfg in configs.instances(name, tier):
             runs.append((cfg, seqcheck.run_config(prop, preds, cfg, cfg.name)))
+    if tier == "thorough" and prop in RECORDED_FOR:
+        # code -> spec from an independent source: the repository's own tests, recorded and validated by TLC
+        runs.append((seqcheck._RecCfg(), seqcheck.run_recorded(prop, preds)))
     return seqcheck.decide(prop, preds, runs, tier, t0)
 
 
